@@ -17,8 +17,8 @@ RULE = ("real TransitSender/TransitReceiver negotiate over SimNet, then record s
         "(for tamper cases) the altered frame was fed to the receiver; distinct = (op, field, index, "
         "direction, reader mode, record sizes).")
 ASSUMPTIONS = ["SimNet fidelity", "sizes <= 300 kB, <= 40 records per direction"]
-FLOORS = {"quick": {"records_surfaced": 5000, "tampers_fed": 200, "clean_complete": 200, "idle_sessions": 50, "reads_issued_on_dropped_connection": 300},
-          "thorough": {"records_surfaced": 140000, "tampers_fed": 2500, "clean_complete": 5000, "idle_sessions": 1300, "reads_issued_on_dropped_connection": 4000}}
+FLOORS = {"quick": {"records_surfaced": 5000, "tampers_fed": 200, "clean_complete": 200, "idle_sessions": 50, "reads_issued_on_dropped_connection": 300, "reads_given_up": 150, "reads_reissued_from_errback": 150, "false_consumers": 40, "consumers_attached_after_close": 150},
+          "thorough": {"records_surfaced": 140000, "tampers_fed": 2500, "clean_complete": 5000, "idle_sessions": 1300, "reads_issued_on_dropped_connection": 4000, "reads_given_up": 2500, "reads_reissued_from_errback": 2500, "false_consumers": 800, "consumers_attached_after_close": 2500}}
 SIZES = [0, 1, 4, 24, 40, 100, 1000, 65535, 65536, 65537]
 OPS = [("flip", "length"), ("flip", "nonce"), ("flip", "tag"), ("flip", "body"), ("delete", None),
        ("swap", None), ("replay", None), ("truncate", None), ("inject", None), ("reflect", None)]
